@@ -47,7 +47,7 @@ def counts(tier):
 
 def generate(rng, n, tier):
     for i in range(n):
-        g = gen.G(rng, strings="plain", allow_params=rng.random() < 0.2, allow_filter=True)
+        g = gen.G(rng, strings="plain", allow_params=rng.random() < 0.2, allow_filter=True, allow_matchers=True)
         d = rng.choice([1, 2, 2, 3, 3, 4, 5, 6]) if tier == "thorough" else rng.choice([1, 2, 2, 3, 3, 4, 5])
         src = g.num(d) if rng.random() < 0.55 else g.crit(d)
         yield {"recipe": src, "ctx": rng.randrange(len(CTXS)), "position": rng.choice(["bare", "bare", "select", "where", "having", "on", "set"])}
